@@ -16,14 +16,26 @@ from harness.props.c02 import enc_val_plain, VALUES
 MANIFEST = dict(
     category="proof",
     technique="Lean 4 theorems over a hand-written model of the xpath engine + differential correspondence with the implementation",
-    text="Lean: for a dict-rooted tree with plain keys, delete(xpath) on the canonical path of an existing node yields exactly "
-         "delAt t p (later list elements shift down, nothing else changes: frame lemmas for delAt), with recursively=True it "
-         "additionally removes the ancestors that became empty dictionaries (C05_delete_recursive vs the reference pruning "
-         "function), pop returns the value lookup returns and has the effect of delete (C05_pop_hit), pop of a path that does "
-         "not resolve returns the default and leaves the tree unchanged (C05_pop_miss), and a popped value is no longer "
-         "reachable at that dict key afterwards; unbounded in tree size. The models of delete/pop are compared with the real "
-         "code step by step along random histories in every spelling lookup accepts (relative, '/'- and '//'-rooted, a[i][j]); "
-         "the statement (tree equals a plain reference after each operation, returned values) is executed on the implementation.",
+    text="Lean (Props/C05.lean; unbounded in tree size; dict-rooted tree, plain keys, path of an existing node at position p): "
+         "delete(xpath) on the canonical path yields exactly delAt t p and raises nothing (C05_delete; token level for any "
+         "token list that spells p: C05_delete_spelled); frame of delAt: a removed dict entry changes no position that "
+         "diverges from it (C05_frame_dict), a removed list element leaves diverging positions alone, earlier elements keep "
+         "their index, later ones shift down by one, the list is the old one with that element erased (C05_frame_list); "
+         "delete(xpath, recursively=True) has the closed form pruneUp (delAt t p): after the node, exactly the ancestors that "
+         "became empty dictionaries are removed, deepest first - a position skipped by a merged token key[i] holds a list "
+         "and is never removed (C05_delete_recursive; token level, any spelling: C05_delete_recursive_spelled; pruneUp_zero / "
+         "pruneUp_succ are its defining equations), and nothing else is removed when the parent did not become an empty "
+         "dictionary (C05_delete_recursive_stops); every spelling lookup accepts, at the string level (prefix none, '/', '//'; "
+         "a[i][j], a[i]/[j], a/[i]/[j]; index as i, -k, last(), last()-k, i+j): delete and delete(recursively) remove the node "
+         "plain Python indexing reaches (C05_delete_spellings), pop returns that node's value and has the effect of delete "
+         "(C05_pop_spellings; canonical path: C05_pop_hit, C05_pop_hit_recursive); pop of a path on which item access raises "
+         "(and leaves the tree alone) returns the default and changes nothing (C05_pop_miss, conditional on that lookup "
+         "behaviour); a popped dict key is no longer present when keys are unique (C05_pop_not_present). "
+         "Differential only: that every missing path makes item access raise (only the out-of-range-index kind is proved, "
+         "C01_out_of_range_miss), histories mixing deletes with C02 writes, object identity of the popped value, and the "
+         "agreement of the models of delete/pop with the real code (compared step by step along random histories in every "
+         "spelling lookup accepts); the statement (tree equals a plain reference after each operation, returned values) is "
+         "executed on the implementation.",
     note="written values are fresh objects; wildcard / predicate / '..' paths are outside the quantifier of the property.",
     design_ref="5/C05",
 )
